@@ -1637,7 +1637,7 @@ def _ntf_new_in(I, a, d):
 
 @T.path("tempfile::NamedTempFile::new")
 def _ntf_new(I, a, d):
-    return wrap(I, lambda: new_temp_in(I, SBytes(b"/tmp")))
+    return wrap(I, lambda: new_temp_in(I, SBytes(b"/root/systmp")))
 
 
 @T.path("tempfile::NamedTempFile::as_file")
